@@ -312,7 +312,11 @@ class Scheduler(object):
         if self.replay:
             self._plan_ready = True
             return
-        if kind == "pb":
+        if kind == "pb" and st.get("at") is not None:
+            # explicit pre-emption points (calibrated by a dry run, see
+            # runner.calibrate)
+            self.preempt_at = set(int(x) for x in st["at"])
+        elif kind == "pb":
             h = max(2, int(st.get("horizon", 400)))
             k = int(st.get("k", 1))
             self.preempt_at = set(self.rng.randrange(1, h) for _ in range(k))
@@ -551,6 +555,7 @@ class Scheduler(object):
     # -- reporting -----------------------------------------------------------
     def summary(self):
         return dict(decisions=self.nchoice, yields=self.nyield,
+                    per_task=[t.steps for t in self.tasks],
                     switches=self.switches, preemptions=self.preemptions,
                     lock_blocked=self.lock_blocked,
                     interleaving=self.switch_hash.hexdigest()[:16],
